@@ -366,7 +366,8 @@ Proof.
   - intros [Hs Hg]. split; [exact Hs|].
     rewrite !iter_values_spec. unfold view_elems. rewrite <- Hs.
     rewrite (map_ext_in (src_get r) (src_get l)).
-    + set (vals := somes _). clear. induction vals as [|v vals IH]; [reflexivity|].
+    + match goal with |- forallb _ (combine ?v ?v) = true => generalize v end.
+      intros vals. induction vals as [|v vals IH]; [reflexivity|].
       cbn [combine forallb fst snd]. rewrite IH, andb_true_r. apply eqb_spec. reflexivity.
     + intros idx Hin. symmetry. apply Hg.
       pose proof (all_indexes_in_range (lens_of (src_shape l))) as F. rewrite Forall_forall in F. auto.
@@ -450,9 +451,9 @@ Proof.
   destruct (dm_new (names_of (src_shape r)) (names_of (src_shape l))) as [tbl|].
   - unfold tensor_equality. rewrite Hv.
     destruct (shape_eqb (src_shape l) (src_shape (TAccess r tbl))) eqn:E; cbn [negb andb].
-    + split; [intros H; exists tbl; auto|]. intros [tbl' [[= <-] H]]. rewrite E in H. exact H.
-    + split; [discriminate|]. intros [tbl' [[= <-] H]]. rewrite E in H. discriminate.
-  - split; [discriminate|]. intros [tbl [H _]]. discriminate.
+    + split; [intros Hq; exists tbl; split; [reflexivity|rewrite E; exact Hq]|]. intros [tbl' [[= <-] Hq]]. rewrite E in Hq. exact Hq.
+    + split; [discriminate|]. intros [tbl' [[= <-] Hq]]. rewrite E in Hq. discriminate.
+  - split; [discriminate|]. intros [tbl [Hq _]]. discriminate.
 Qed.
 
 Theorem equality_implies_similarity (l r : tsrc A) :
@@ -462,7 +463,8 @@ Proof.
   assert (Hs : src_shape l = src_shape r).
   { unfold tensor_equality in H. apply andb_true_iff in H. apply shape_eqb_eq. apply H. }
   exists (dm_no_op (length (src_shape r))). split.
-  - rewrite Hs. unfold names_of at 3. rewrite <- (map_length fst). apply dm_new_same.
+  - rewrite Hs. replace (length (src_shape r)) with (length (names_of (src_shape r)))
+      by (unfold names_of; apply map_length). apply dm_new_same.
   - destruct (no_op_access_values r) as [Hrs Hrv].
     unfold tensor_equality in *. rewrite Hrs, Hrv. exact H.
 Qed.
